@@ -28,7 +28,7 @@ TRUSTED_BASE = [
 ]
 
 SAN_FLAGS = ['-std=c++17', '-O1', '-g', '-fno-omit-frame-pointer', '-fsanitize=address,undefined',
-             '-fno-sanitize-recover=all', '-D_GLIBCXX_SANITIZE_VECTOR', '-D' + GUARD, '-pthread']
+             '-fno-sanitize-recover=all', '-D_GLIBCXX_SANITIZE_VECTOR', '-DNDEBUG', '-D' + GUARD, '-pthread']
 
 
 def log(*a):
@@ -377,6 +377,12 @@ class Result:
         self.evals = 0
         self.nontrivial = set()
         self.unspecified = 0
+        try:
+            for f in os.listdir(REPLAY):
+                if f.startswith(prop_id + '-'):
+                    os.remove(os.path.join(REPLAY, f))
+        except OSError:
+            pass
 
     def count(self, key, n=1):
         self.hist[key] = self.hist.get(key, 0) + n
